@@ -121,7 +121,8 @@ EvalStep(x, e) ==
     \* EOI is a built-in (normal) rule: it always emits its pair; an enclosing atomic rule filters it
     [] e.k = "eoi"   -> IF P = Len(inp) THEN Return(Emit1(x, <<"EOI", P, P, <<>>>>), "ok") ELSE Return(x, "fail")
     [] e.k = "ref"   -> EnterRule(x, e.n)
-    [] e.k = "seq"   -> Replace(NewBuf(x), <<[f |-> "seq", es |-> e.es, i |-> 1], EvalF(e.es[1])>>)
+    [] e.k = "seq"   -> IF e.es = <<>> THEN Return(x, "ok")
+                        ELSE Replace(NewBuf(x), <<[f |-> "seq", es |-> e.es, i |-> 1], EvalF(e.es[1])>>)
     [] e.k = "alt"   -> Replace(NewBuf(Checkpoint(x)), <<[f |-> "alt", es |-> e.es, i |-> 1], EvalF(e.es[1])>>)
     [] e.k = "opt"   -> Replace(NewBuf(Checkpoint(x)), <<[f |-> "opt"], EvalF(e.e)>>)
     [] e.k = "star"  -> Replace(Checkpoint(NewBuf(x)), <<[f |-> "star", e |-> e.e], EvalF(e.e)>>)
